@@ -344,6 +344,10 @@ func (viso *VirtualISO) makeDirEntries(item *dirItem, joliet bool) error {
 				ExtentLocation:       lba,
 			}
 
+			if entry.size() > maxDirectoryEntrySize {
+				return fmt.Errorf("name of file %s is too long for directory entry", fileItem.path)
+			}
+
 			switch {
 			case parts == 1:
 				entry.ExtentLength = fileItem.size
@@ -380,6 +384,10 @@ func (viso *VirtualISO) makeDirEntries(item *dirItem, joliet bool) error {
 			VolumeSequenceNumber: 1,
 			RecordingDateTime:    recordingTimestamp(dirItem.modTime),
 			Identifier:           makeIdentifier(dirItem.name, joliet),
+		}
+
+		if entry.size() > maxDirectoryEntrySize {
+			return fmt.Errorf("name of directory %s is too long for directory entry", dirItem.path)
 		}
 
 		if joliet {
